@@ -18,7 +18,7 @@ ASSUMPTIONS = ["invalid JSON / invalid UTF-8 in the built-in formats is outside 
                "fixture plugins (vf/fixtures/plugins) stand for 'another distribution installed more parser modules'"]
 FLAVORS = ["bmc_json", "bmc_text", "bmc_other", "noparser", "fx_ok", "fx_raise", "fx_none", "fx_importerror", "fx_list",
            "fx_hostile", "fx_keyerror", "fx_badimport", "fx_brokenimport", "fx_release_raise", "fx_release_none",
-           "fx_release_ok"]
+           "fx_release_ok", "fx_raise_empty", "fx_raise_multiline"]
 
 
 def plan(tier, seed):
